@@ -36,6 +36,16 @@ Proof.
   - rewrite (IH P k delta) by lia. module_eq.
 Qed.
 
+(** why the checks insist that the generators a statement carries are pairwise DISTINCT points: over two equal generators a vector commitment
+    binds only the sum of the two coefficients — the digit at position j can be moved from one side to the other without touching the commitment *)
+Theorem equal_generators_not_binding (aL aR : list K) (Gs Hs : list M) j delta :
+  j < length aL -> length aL = length Gs -> j < length aR -> length aR = length Hs ->
+  nth j Gs (v0 M) = nth j Hs (v0 M) ->
+  msm (add_at j delta aL) Gs +v msm (add_at j (- delta) aR) Hs = msm aL Gs +v msm aR Hs.
+Proof.
+  intros H1 H2 H3 H4 E. rewrite (msm_add_at aL Gs j delta H1 H2), (msm_add_at aR Hs j (- delta) H3 H4), E. module_eq.
+Qed.
+
 Definition shift_d1 (b : bmember K M) (k : nat) (delta : K) : bmember K M :=
   mkB K M (b_bits K M b) (b_promises K M b) (mkVproof K (add_at k delta (v_d1 (b_pf K M b))) (v_r1 (b_pf K M b)) (v_s1 (b_pf K M b)))
       (b_ch K M b) (b_w K M b) (b_pts K M b).
@@ -59,4 +69,29 @@ Theorem cancelling_shifts_leave_the_weighted_sum (bi bj : bmember K M) k t :
 Proof.
   intros Hi Li Hj Lj wi wj. rewrite !residual_of_shifted_response by assumption. module_eq.
 Qed.
+(** any number of members, ANY factors [w] (those of the altered batch included): shifts [c_i * t] move the weighted sum by
+    [(sum_i w_i c_i) * t] along [Gb_k].  Factors that satisfy an integer relation [sum_i w_i c_i = 0] whatever the responses are — a progression
+    [a + i b] satisfies [w_0 - 2 w_1 + w_2 = 0] — therefore let three individually invalid proofs pass, although every factor did change with the
+    responses.  This is the relation attack of tools/props/c08.py (the relation is found by lattice reduction on the observed factors). *)
+Fixpoint wres (l : list (K * K * bmember K M)) : M :=
+  match l with [] => v0 M | (w, _, b) :: l' => w *v res b +v wres l' end.
+Fixpoint wres_shifted (k : nat) (t : K) (l : list (K * K * bmember K M)) : M :=
+  match l with [] => v0 M | (w, c, b) :: l' => w *v res (shift_d1 b k (c * t)) +v wres_shifted k t l' end.
+Fixpoint relation (l : list (K * K * bmember K M)) : K :=
+  match l with [] => 0 | (w, c, _) :: l' => w * c + relation l' end.
+
+Theorem shifts_along_a_relation k t (l : list (K * K * bmember K M)) :
+  Forall (fun x => k < length (v_d1 (b_pf K M (snd x))) /\ length (v_d1 (b_pf K M (snd x))) = length Gb) l ->
+  wres_shifted k t l = wres l +v (relation l * t) *v nth k Gb (v0 M).
+Proof.
+  induction l as [|[[w c] b] l IH]; intros F; cbn [wres wres_shifted relation].
+  - module_eq.
+  - inversion F as [|x l0 Hx F']; subst. cbn [snd] in Hx. destruct Hx as [Hk Hl].
+    rewrite (IH F'), residual_of_shifted_response by assumption. module_eq.
+Qed.
+
+Corollary shifts_along_a_vanishing_relation k t (l : list (K * K * bmember K M)) :
+  Forall (fun x => k < length (v_d1 (b_pf K M (snd x))) /\ length (v_d1 (b_pf K M (snd x))) = length Gb) l ->
+  relation l = 0 -> wres_shifted k t l = wres l.
+Proof. intros F R. rewrite (shifts_along_a_relation k t l F), R. module_eq. Qed.
 End Cancel.
